@@ -397,7 +397,6 @@ fn run_fresh(prog: &CaoCompiledProgram, pr: &Printed, budget: u64) -> Obs {
     // After a panic the VM's state is arbitrary: do not run its destructor. (Before a72177e a function object that
     // did not fit on the value stack was freed but left in `object_list`, and dropping the Vm freed it again.)
     if o.kind == Kind::Panic {
-        std::mem::forget(vm);
     }
     o
 }
@@ -547,8 +546,13 @@ pub fn gen(a: &Args) {
         let r2 = vm.register_native_function("_x", noop).is_ok();
         let r3 = vm.register_native_function("__min", noop).is_err();
         let r4 = vm.register_native_function("a__b", noop).is_ok();
-        w.push(format!("(VmReserved {})", out::list(vec![out::b(r1), out::b(r2), out::b(r3), out::b(r4)])), false);
+        let mut answers = vec![out::b(r1), out::b(r2), out::b(r3), out::b(r4)];
+        // a history of registrations on a new VM (after the menu), then which function runs under which name:
+        // compared with the registry model (VmRegistry.v) by C18Check.reg_expected
+        answers.extend(registration_history(REG_OPS, REG_PROBES).into_iter().map(out::b));
+        w.push(format!("(VmReserved {})", out::list(answers)), false);
         w.count("reserved_names");
+        w.count("registration_history");
     }
     for e in vmgen::corpus() {
         w.count(&format!("corpus.{}", e.name));
@@ -576,6 +580,82 @@ pub fn gen(a: &Args) {
     w.count_n("rb1.callee_ok", RB1_OK.load(std::sync::atomic::Ordering::Relaxed));
     w.count_n("rb1.callee_failed", RB1_ERR.load(std::sync::atomic::Ordering::Relaxed));
     w.finish(serde_json::json!({"profile": if cfg!(debug_assertions) { "debug" } else { "release" }}));
+}
+
+/// The fixed registration history of the C18 check: (name, id of the registered function). Must agree with
+/// C18Check.reg_ops / reg_probes.
+pub const REG_OPS: &[(&str, u32)] = &[
+    ("__mine", 1), ("_x", 2), ("__min", 3), ("a__b", 4), ("f", 5), ("f", 6), ("_x", 7), ("__to_array", 8), ("log1", 9),
+    ("_", 10), ("__", 11),
+];
+pub const REG_PROBES: &[&str] = &["f", "_x", "a__b", "log1", "__mine", "g", "_", "__"];
+
+/// Registers `ops` in order through the public entry on a new VM (every function = a plain closure that logs its
+/// id), then runs the program `CallNative(probe)` for every probe.  Answer: for every registration whether it was
+/// accepted; for every probe, for every id 1..=max whether the function with that id ran, then whether the run
+/// ended with ProcedureNotFound.
+fn registration_history(ops: &[(&str, u32)], probes: &[&str]) -> Vec<bool> {
+    let mut vm = new_vm(1000);
+    let mut out_bools = vec![];
+    for (name, id) in ops {
+        let id = *id;
+        let f = move |vm: &mut Vm<Host>| -> R {
+            vm.get_aux_mut().log.push(format!("REG{}", id));
+            Ok(Value::Nil)
+        };
+        out_bools.push(vm.register_native_function(*name, f).is_ok());
+    }
+    let max_id = ops.iter().map(|(_, i)| *i).max().unwrap_or(0);
+    for p in probes {
+        let m = vmgen::module(vec![("main", vmgen::func(&[], vec![vmgen::native(p, vec![])]))]);
+        let prog = compile(m, None).expect("probe program");
+        vm.get_aux_mut().log.clear();
+        let r = vm.run(&prog);
+        let log = vm.get_aux().log.clone();
+        for k in 1..=max_id {
+            out_bools.push(log.iter().any(|e| *e == format!("REG{}", k)));
+        }
+        out_bools.push(matches!(r, Err(ref e) if matches!(e.payload, ExecutionErrorPayload::ProcedureNotFound(_))));
+        vm.clear();
+    }
+    out_bools
+}
+
+/// `cao-verif-harness c18-witness`: the reservation of the library's names is by NAME, the table of callables is keyed
+/// by the 32-bit FNV-1a hash of the name: "tuewgsg" has the handle of "__min", is accepted by
+/// register_native_function and replaces the library's native (Properties/C18.v
+/// C18_std_native_shadowed_by_collision).
+pub fn c18_witness() {
+    use std::str::FromStr;
+    let h1 = Handle::from_str("tuewgsg").unwrap();
+    let h2 = Handle::from_str("__min").unwrap();
+    println!("Handle::from_str(\"tuewgsg\") = {:?}, Handle::from_str(\"__min\") = {:?}, equal: {}", h1, h2, h1 == h2);
+    let mut vm = new_vm(1000);
+    let rejected = vm.register_native_function("__min", |_vm: &mut Vm<Host>| -> R { Ok(Value::Nil) }).is_err();
+    println!("register_native_function(\"__min\") rejected: {}", rejected);
+    // before: the library's min of [3, 1, 2]
+    let m = || {
+        vmgen::module_std(vec![("main", vmgen::func(&[], vec![vmgen::sg(
+            "r",
+            vmgen::call("min", vec![vmgen::array(vec![vmgen::int(3), vmgen::int(1), vmgen::int(2)])]),
+        )]))])
+    };
+    let prog = compile(m(), None).expect("compile");
+    let r = vm.run(&prog);
+    let v = vm.read_var_by_name("r", &prog.variables).map(|v| tree(v, TREE_DEPTH));
+    println!("before: std.min([3,1,2]) -> run = {:?}, r = {:?}", r.as_ref().map_err(|e| format!("{:?}", e.payload)), v);
+    let accepted = vm
+        .register_native_function("tuewgsg", |vm: &mut Vm<Host>| -> R {
+            vm.get_aux_mut().log.push("USER FUNCTION tuewgsg RAN".to_string());
+            Err(ExecutionErrorPayload::Unimplemented)
+        })
+        .is_ok();
+    println!("register_native_function(\"tuewgsg\") accepted: {}", accepted);
+    vm.clear();
+    vm.get_aux_mut().log.clear();
+    let r = vm.run(&prog);
+    println!("after:  std.min([3,1,2]) -> run = {:?}", r.as_ref().map_err(|e| format!("{:?}", e.payload)));
+    println!("host log: {:?}", vm.get_aux().log);
 }
 
 /// `harness replay VM --out module.json [--n budget]`: compile and run one dumped module, print what happened
